@@ -24,7 +24,7 @@ EXPLANATION = (
     "under complementary guards and only the primary ring is searched; (O5) the inputs are not modified (no store or "
     "mutator call on matrix/columns/secondary or their aliases, through _build_links) and no randomness/global state "
     "is used; (O6) verdict guards: INFEASIBLE only when the iteration budget did not fire and no solution was found, "
-    "find_all OPTIMAL only when the max_solutions cut did not fire. NOT decided: that the returned selections are "
+    "find_all OPTIMAL only when the max_solutions cut did not fire. (O7) link construction and the steps of Algorithm X, statement group by statement group. NOT decided: that the returned selections are "
     "exactly the exact covers (Knuth's argument from O1-O4 is not mechanised)."
 )
 
@@ -255,6 +255,15 @@ def run(ctx: Ctx):
                     cut = "max_solutions and len(solutions) >= max_solutions"
                     ok = (ast.unparse(d.test) == cut and ast.unparse(d.orelse) == "Status.OPTIMAL" and ast.unparse(d.body) != "Status.OPTIMAL") or (ast.unparse(d.test) == f"not ({cut})" and ast.unparse(d.body) == "Status.OPTIMAL")
                 ctx.ob("C07-O6", "R2 BUDGET-EXIT", api, f"Result#{k} find_all OPTIMAL only when the max_solutions cut did not fire", ok, "", node=s.call)
+    # ---- O7 construction of the links and the steps of Algorithm X, statement group by statement group
+    from .sat_common import _need
+
+    _need(ctx, "C07-O7", "R16 PAIRED-EFFECTS", build, "primary headers are chained left to right behind the root and the ring is closed; secondary headers form their own closed ring", ["if name not in secondary_set:\n            col.left = prev\n            prev.right = col\n            prev = col", "prev.right = root\n    root.left = prev", "if name in secondary_set:\n            col.left = prev_sec\n            prev_sec.right = col\n            prev_sec = col", "prev_sec.right = secondary_root\n    secondary_root.left = prev_sec", "col_headers.append(col)"])
+    _need(ctx, "C07-O7", "R16 PAIRED-EFFECTS", build, "the nodes of a row are chained in column order and closed into a ring; only cells holding a 1 get a node", ["for col_idx, val in enumerate(row):\n            if val:", "if first is None:\n                    first = node\n                    prev_node = node\n                else:\n                    node.left = prev_node\n                    prev_node.right = node\n                    prev_node = node", "if first is not None and prev_node is not None:\n            first.left = prev_node\n            prev_node.right = first"])
+    _need(ctx, "C07-O7", "R1 STATUS-GUARD", search, "a cover is complete exactly when the primary ring is empty; it is recorded as the current row stack", ["if root.right is root:\n        solutions.append(tuple(current))\n        if not find_all:\n            return True\n        if max_solutions and len(solutions) >= max_solutions:\n            return True\n        return False"])
+    _need(ctx, "C07-O7", "R21 search discipline", search, "the column with the fewest candidate rows is chosen; an uncoverable column ends the branch", ["min_col = None\n    min_size = float('inf')\n    col = root.right\n    while col is not root:\n        if col.size < min_size:\n            min_size = col.size\n            min_col = col\n            if min_size == 0:\n                break\n        col = col.right", "if min_size == 0 or min_col is None:\n        return False"])
+    _need(ctx, "C07-O7", "R15 INVERSE-PAIR", search, "trying a row: push it, cover its other columns left to right, recurse, pop it, uncover them right to left; finally uncover the chosen column", ["_cover(min_col)", "current.append(row_node.row)\n        node = row_node.right\n        while node is not row_node:\n            _cover(node.column)\n            covers += 1\n            node = node.right", "current.pop()\n        node = row_node.left\n        while node is not row_node:\n            _uncover(node.column)\n            node = node.left\n        row_node = row_node.down", "_uncover(min_col)\n    return False", "if search():\n            if not find_all:\n                return True\n            if max_solutions and len(solutions) >= max_solutions:\n                return True"])
+    _need(ctx, "C07-O7", "R1 STATUS-GUARD", search, "the iteration budget is counted per call and ends the search", ["iterations += 1\n    if iterations > max_iter:\n        return False"])
     generic_sweeps(ctx)
 
 
@@ -321,6 +330,11 @@ def _v_optimal_with_cut(tree):
     M.replace_expr(g, lambda e: isinstance(e, ast.IfExp) and M.src_has(e, "Status.FEASIBLE"), M.expr("Status.OPTIMAL"))
 
 
+def _v_row_ring_not_closed(tree):
+    g = M.find_func(tree, "_build_links")
+    M.replace_stmt(g, lambda s: isinstance(s, ast.If) and M.src_is(s.test, "first is not None and prev_node is not None"), [])
+
+
 def _v_rows_renumbered(tree):
     g = M.find_func(tree, "_build_links")
     M.replace_stmt(g, lambda s: isinstance(s, ast.For) and M.src_is(s.iter, "enumerate(matrix)"), lambda s: M.stmts("rows = [row for row in matrix if any(row)]") + [s])
@@ -363,6 +377,7 @@ VARIANTS = [
     M.Variant("find_all OPTIMAL although max_solutions cut fired", DLX, _v_optimal_with_cut, "C07-O6"),
     M.Variant("all-zero rows dropped before the rows are numbered (seed C07-C)", DLX, _v_rows_renumbered, "C07-O4"),
     M.Variant("twin: rows numbered over a one-to-one copy of the matrix", DLX, _t_rows_sparse_view, None),
+    M.Variant("row nodes are chained but the ring is never closed", DLX, _v_row_ring_not_closed, "C07-O7"),
     M.Variant("twin: reformat", DLX, _t_reformat, None),
     M.Variant("twin: rename walk variable", DLX, _t_rename, None),
     M.Variant("twin: commuting statements of the relink swapped", DLX, _t_swap_commuting, None),
